@@ -722,7 +722,7 @@ func ruleStatedTypes(c *core.Ctx, rule string) {
 	t := newSigTable(c)
 	ord := map[string]int{}
 	for _, fn := range c.RepoFuncs() {
-		if c.IsTestFile(fn) || c.InWitness(fn.Pos()) {
+		if c.IsTestFile(fn) {
 			continue
 		}
 		for _, call := range core.Calls(fn) {
